@@ -244,6 +244,95 @@ theorem multi_version_199 (t : Str) (ht : Token t) :
   simpa [protoStr, chain] using this
 
 
+/-- when several protocol items are present, the one reported is a smallest one in Python's
+    order on tuples of strings (`ltPair`): it is one of the items and none is below it -/
+theorem protocol_is_min (p : Pair) (ps : List Pair) :
+    minPair p ps ∈ p :: ps ∧ ∀ q ∈ p :: ps, ltPair q (minPair p ps) = false :=
+  ⟨minPair_mem p ps, minPair_le p ps⟩
+
+/-! ### comments: words separated by runs of blanks come out separated by single blanks -/
+
+/-- a word: non-empty, no blank -/
+def Word (w : Str) : Prop := w ≠ [] ∧ ∀ x ∈ w, isBlank x = false
+
+/-- `w₀ ␣^(k₁+1) w₁ ␣^(k₂+1) w₂ …` -/
+def joinBlanks : Str → List (Nat × Str) → Str
+  | w, [] => w
+  | w, (k, w') :: rest => w ++ (List.replicate (k + 1) ' ' ++ joinBlanks w' rest)
+
+/-- `w₀ ␣ w₁ ␣ w₂ …` -/
+def joinOne : Str → List (Nat × Str) → Str
+  | w, [] => w
+  | w, (_, w') :: rest => w ++ ' ' :: joinOne w' rest
+
+theorem joinBlanks_head (w : Str) (rest : List (Nat × Str)) (hw : Word w) :
+    ∃ c y, joinBlanks w rest = c :: y ∧ isBlank c = false := by
+  obtain ⟨hne, hb⟩ := hw
+  cases w with
+  | nil => exact absurd rfl hne
+  | cons c w' =>
+    cases rest with
+    | nil => exact ⟨c, w', rfl, hb c (by simp)⟩
+    | cons p rest => exact ⟨c, w' ++ (List.replicate (p.1 + 1) ' ' ++ joinBlanks p.2 rest), by simp [joinBlanks], hb c (by simp)⟩
+
+theorem lastOk_noblank (w : Str) (h : ∀ x ∈ w, isBlank x = false) : lastOk w = true := by
+  induction w with
+  | nil => rfl
+  | cons c cs ih =>
+    cases cs with
+    | nil => simp [lastOk, h c (by simp)]
+    | cons c' cs' => simp only [lastOk]; exact ih (fun x hx => h x (by simp [hx]))
+
+theorem lastOk_append (x y : Str) (hy : y ≠ []) : lastOk (x ++ y) = lastOk y := by
+  induction x with
+  | nil => rfl
+  | cons c cs ih => rw [List.cons_append, lastOk_cons _ _ (by simp [hy]), ih]
+
+theorem lastOk_joinBlanks (w : Str) (rest : List (Nat × Str)) (hw : Word w) (hr : ∀ p ∈ rest, Word p.2) :
+    lastOk (joinBlanks w rest) = true := by
+  induction rest generalizing w with
+  | nil => exact lastOk_noblank w hw.2
+  | cons p rest ih =>
+    obtain ⟨k, w'⟩ := p
+    obtain ⟨c, y, hcy, _⟩ := joinBlanks_head w' rest (hr (k, w') (by simp))
+    have hne : joinBlanks w' rest ≠ [] := by rw [hcy]; simp
+    simp only [joinBlanks]
+    rw [lastOk_append _ _ (by simp [hne]), lastOk_append _ _ hne]
+    exact ih w' (hr (k, w') (by simp)) (fun q hq => hr q (by simp [hq]))
+
+theorem collapse_joinBlanks (w : Str) (rest : List (Nat × Str)) (hw : Word w) (hr : ∀ p ∈ rest, Word p.2) :
+    collapse (joinBlanks w rest) = joinOne w rest := by
+  induction rest generalizing w with
+  | nil =>
+    have := collapse_append_nonblank w [] hw.2
+    simpa [joinBlanks, joinOne, collapse] using this
+  | cons p rest ih =>
+    obtain ⟨k, w'⟩ := p
+    obtain ⟨c, y, hcy, hc⟩ := joinBlanks_head w' rest (hr (k, w') (by simp))
+    simp only [joinBlanks, joinOne]
+    rw [collapse_append_nonblank w _ hw.2, hcy, collapse_blanks k c y hc, ← hcy,
+      ih w' (hr (k, w') (by simp)) (fun q hq => hr q (by simp [hq]))]
+
+/-- **comments**: whatever the runs of blanks before, between and after the words, the comments
+    reported are the words separated by single blanks -/
+theorem comments_words (w : Str) (rest : List (Nat × Str)) (k0 k1 : Nat) (hw : Word w) (hr : ∀ p ∈ rest, Word p.2) :
+    normComments (List.replicate k0 ' ' ++ joinBlanks w rest ++ List.replicate k1 ' ') = some (joinOne w rest) := by
+  obtain ⟨c, y, hcy, hc⟩ := joinBlanks_head w rest hw
+  have hstrip : strip (List.replicate k0 ' ' ++ joinBlanks w rest ++ List.replicate k1 ' ') = joinBlanks w rest := by
+    unfold strip
+    rw [List.append_assoc, dropWhile_append_all isBlank _ _ (by intro x hx; rw [List.eq_of_mem_replicate hx]; rfl)]
+    have hd : (joinBlanks w rest ++ List.replicate k1 ' ').dropWhile isBlank = joinBlanks w rest ++ List.replicate k1 ' ' := by
+      apply dropWhile_id_of_head
+      intro a r h
+      rw [hcy] at h
+      injection h with h1 _
+      rw [← h1]; exact hc
+    rw [hd, rstrip_append_blanks, rstrip_of_lastOk _ (lastOk_joinBlanks w rest hw hr)]
+  unfold normComments
+  rw [hstrip]
+  have hne : (joinBlanks w rest).isEmpty = false := by rw [hcy]; rfl
+  simp only [orNone, hne, Bool.false_eq_true, if_false, Option.map_some, collapse_joinBlanks w rest hw hr]
+
 /-! ### what is reported is always well-formed and printable -/
 
 /-- shape of every parsed banner, whatever the line was: the major version is one digit; the
@@ -441,7 +530,7 @@ theorem header_separation (pre : List (List Bytes)) (hs : List Bytes) (l : Bytes
         intro r hr
         obtain ⟨x, hx, rfl⟩ := List.mem_map.mp hr
         rw [lineText_lf]; exact (hhs x hx).2)]
-    simp only [scan, lineText_lf, hnb, hb, shown_lf, flatten_splitLines]
+    simp only [scan, lineText_lf, hnb, hb, shown_lf]
     simp [flatten_splitLines]
   | cons ch pre ih =>
     obtain ⟨hchne, hch⟩ := hpre ch (by simp)
@@ -581,6 +670,8 @@ example : parse "SSH-1.99-SSH-2.0-x  a   b ".toList
 example : (parse ("SSH-2.0-dropbear_2019.78 caf" ++ "é\t!").toList).map (fun b => (render b, b.validAscii))
     = some ("SSH-2.0-dropbear_2019.78 caf??!".toList, false) := by
   decide +kernel
+example : normComments " Debian-9etch3   on i686  ".toList = some "Debian-9etch3 on i686".toList := by decide +kernel
+example : joinBlanks "Debian-9etch3".toList [(2, "on".toList), (0, "i686".toList)] = "Debian-9etch3   on i686".toList := by decide +kernel
 example : getBanner [] ["hello\r\n\r\nSSH-2.0-x\r\nrest".toUTF8.toList]
     = { banner := some { protocol := (2, 0), software := some ['x'], comments := none, validAscii := true },
         header := ["hello".toList], unread := "rest".toUTF8.toList } := by
